@@ -178,7 +178,7 @@ func fsEq(a, b driver.Value) bool {
 }
 
 var (
-	fsSelectRe = regexp.MustCompile(`(?s)^SELECT (.+?) FROM (\w+)(?: WHERE (.+?))?(?: ORDER BY .+?)?(?: LIMIT (\d+))?(?: FOR UPDATE)?$`)
+	fsSelectRe = regexp.MustCompile(`(?s)^SELECT (.+?) FROM (\w+)(?: WHERE (.+?))?(?: ORDER BY (.+?))?(?: LIMIT (\d+))?(?: FOR UPDATE)?$`)
 	fsInsertRe = regexp.MustCompile(`^INSERT INTO (\w+) \((.+?)\) VALUES (.+?)( ON DUPLICATE KEY UPDATE .+)?$`)
 	fsUpdateRe = regexp.MustCompile(`^UPDATE (\w+) SET (.+?)(?: WHERE (.+))?$`)
 	fsDeleteRe = regexp.MustCompile(`^DELETE FROM (\w+)(?: WHERE (.+))?$`)
@@ -431,8 +431,33 @@ func (c *fsConn) queryLocked(q string, args []driver.NamedValue) (driver.Rows, e
 	}
 	cols := strings.Split(m[1], ", ")
 	if m[4] != "" {
+		// ORDER BY col [ASC|DESC], one key, stable
+		parts := strings.Fields(m[4])
+		key := strings.Trim(parts[0], "`")
+		desc := len(parts) > 1 && strings.EqualFold(parts[1], "DESC")
+		sort.SliceStable(hit, func(i, j int) bool {
+			a, b := fsNorm(hit[i][key]), fsNorm(hit[j][key])
+			less := false
+			switch x := a.(type) {
+			case int64:
+				y, _ := b.(int64)
+				less = x < y
+				if desc {
+					less = x > y
+				}
+			case string:
+				y, _ := b.(string)
+				less = x < y
+				if desc {
+					less = x > y
+				}
+			}
+			return less
+		})
+	}
+	if m[5] != "" {
 		var lim int
-		fmt.Sscan(m[4], &lim)
+		fmt.Sscan(m[5], &lim)
 		if len(hit) > lim {
 			hit = hit[:lim]
 		}
